@@ -15,7 +15,7 @@ def __dir__():
 
 def _interp(x, xp, fp):
     tb, _ = get_backend()
-    return tb.astensor(np.interp(x, xp.tolist(), fp.tolist()))
+    return tb.astensor(np.interp(x, xp, fp))
 
 
 def toms748_scan(
@@ -92,7 +92,8 @@ def toms748_scan(
         # Use integers for limit so we don't need a string comparison
         # limit == 0: Observed
         # else: expected
-        return (
+        # hand the root finder a plain number whatever the tensor backend
+        return float(
             f_cached(poi)[0] - level
             if limit == 0
             else f_cached(poi)[1][limit - 1] - level
@@ -194,10 +195,14 @@ def linear_grid_scan(
     obs = tb.astensor([[r[0]] for r in results])
     exp = tb.astensor([[r[1][idx] for idx in range(5)] for r in results])
 
-    result_array = tb.concatenate([obs, exp], axis=1).T
+    # plain lists: not every backend's tensors offer ``.T`` or negative-step slicing
+    result_array = tb.tolist(tb.transpose(tb.concatenate([obs, exp], axis=1)))
+    scan_points = np.asarray(scan).tolist()
 
     # observed limit and the (0, +-1, +-2)sigma expected limits
-    limits = [_interp(level, result_array[idx][::-1], scan[::-1]) for idx in range(6)]
+    limits = [
+        _interp(level, result_array[idx][::-1], scan_points[::-1]) for idx in range(6)
+    ]
     obs_limit, exp_limits = limits[0], limits[1:]
 
     if return_results:
